@@ -28,7 +28,7 @@ import warnings
 import xml.sax.saxutils as saxutils
 from typing import Any, Dict, Iterator, List, Optional, Sequence, Tuple
 
-from harness import retree_wire
+from harness import extract, retree_wire
 from harness.core import Ctx, corpus, crash_name, dec_text, enc_text
 from harness.extract import ExtractError, HEADER, _class, _func, _parse, lean_text
 
@@ -125,15 +125,35 @@ def gen_Xsd(repo: pathlib.Path) -> str:
     if not m:
         raise ExtractError(f"_ESCAPE_BACKSLASH_X_RE has an unknown shape: {rx!r}")
     cls_x = _class_ranges(m.group(1))
+<<<<<<< HEAD
     for fname in ("_undo_escaping_backslash_x_in_pattern",):
         fn = _func(mod, fname)
+=======
+    rxu = _regex_source(mod, "_ESCAPE_BACKSLASH_X_U_U_RE")
+    m = re.fullmatch(r"\(\\\\\\\\\|\\\\x\(\[([^\]]*)\]\{2\}\)\|\\\\u\(\[([^\]]*)\]\{4\}\)\|\\\\U\(\[([^\]]*)\]\{8\}\)\)", rxu)
+    if not m:
+        raise ExtractError(f"_ESCAPE_BACKSLASH_X_U_U_RE has an unknown shape: {rxu!r}")
+    if not (m.group(1) == m.group(2) == m.group(3)):
+        raise ExtractError("the three character classes of _ESCAPE_BACKSLASH_X_U_U_RE differ")
+    cls_xuu = _class_ranges(m.group(1))
+
+    # each un-escaping function — itself or through the module-level helpers it calls — iterates over the matches of ITS
+    # expression and skips the escaped backslash with a `continue`
+    for fname, rname in (
+        ("_undo_escaping_backslash_x_in_pattern", "_ESCAPE_BACKSLASH_X_RE"),
+        ("_undo_escaping_backslash_x_u_and_U_in_pattern", "_ESCAPE_BACKSLASH_X_U_U_RE"),
+    ):
+        scopes = extract._reachable_functions(mod, _func(mod, fname))
+>>>>>>> 2082a4740a9a6cea38afcc12d3ca43dfbc7b1c65
         skips = [
-            n for n in ast.walk(fn)
+            n for scope in scopes for n in ast.walk(extract.expand_locals(scope))
             if isinstance(n, ast.If) and isinstance(n.test, ast.Compare) and isinstance(n.test.comparators[0], ast.Constant)
             and n.test.comparators[0].value == "\\\\" and any(isinstance(b, ast.Continue) for b in n.body)
         ]
         if len(skips) != 1:
             raise ExtractError(f"{fname} does not skip the escaped backslash with a `continue`")
+        if not any(isinstance(n, ast.Name) and n.id == rname for scope in scopes for n in ast.walk(scope)):
+            raise ExtractError(f"{fname} does not use {rname}")
 
     # the preparation of the patterns for greenery (repair of C13-F1 / C14-F1 and of the anchors-as-characters defect)
     gcls = _class(mod, "_GreeneryRenderer")
@@ -189,11 +209,14 @@ def gen_Xsd(repo: pathlib.Path) -> str:
         raise ExtractError("_PRIMITIVE_MAP not found")
 
     # the XML-character pattern that _translate_to_simple_type skips
+    # (written in the comparison or as a module-level constant; in the function or in a module-level helper it calls)
     xml_pats = [
-        n.comparators[0].value
-        for n in ast.walk(_func(mod, "_translate_to_simple_type"))
+        c.value
+        for scope in extract._reachable_functions(mod, _func(mod, "_translate_to_simple_type"))
+        for n in ast.walk(scope)
         if isinstance(n, ast.Compare) and len(n.ops) == 1 and isinstance(n.ops[0], ast.NotEq)
-        and isinstance(n.comparators[0], ast.Constant) and isinstance(n.comparators[0].value, str)
+        for c in [extract._resolve_module_constant(mod, side) for side in (n.left, n.comparators[0])]
+        if isinstance(c, ast.Constant) and isinstance(c.value, str)
     ]
     if len(xml_pats) != 1:
         raise ExtractError(f"expected one `pattern != <constant>` in _translate_to_simple_type, found {len(xml_pats)}")
